@@ -69,6 +69,7 @@ mod h {
         std::mem::forget(ds); std::mem::forget(e);
     }
     @OFFS@
+    @STEP@
     @LAYOUT@
     @POOL@
 }
@@ -132,6 +133,44 @@ LAYOUT = r'''
 '''
 
 
+STEP = r'''
+    /// modular contract of the callee Entry::to_bytes for this obligation: SOME byte string, the same one on every call for the same entry
+    static mut TB_LEN: usize = 0;
+    static mut TB_CALLS: usize = 0;
+    fn to_bytes_contract(_e: &Entry) -> Vec<u8> {
+        let n = unsafe { TB_CALLS += 1; TB_LEN };
+        let mut v = Vec::new(); let mut i = 0; while i < n { v.push(0x55u8); i += 1; } v
+    }
+    /// R5 lifting: the fold closure of absolute_idx_to_offset, verbatim, as a function
+    fn offset_step(@CPARAMS@) -> usize @CBODY@
+    /// R5 lifting: the body of the for loop of serialize_to_bytes, verbatim, as a function
+    fn serialize_step(buf: &mut Vec<u8>, @LVAR@: &Entry) @LBODY@
+    /// inductive step tying the two real functions together: if the buffer ends at offset(i) before entry i, then after the
+    /// loop body it ends at offset(i+1) = fold-closure(offset(i), entry i), entry bytes at offset(i), the gap zero, the prefix untouched
+    #[kani::proof] #[kani::unwind(20)] #[kani::stub(Entry::to_bytes, to_bytes_contract)]
+    fn layout_step() {
+        let n: usize = kani::any(); kani::assume(n <= 9);
+        unsafe { TB_LEN = n; TB_CALLS = 0; }
+        let words: usize = kani::any(); kani::assume(words <= 2);
+        let off = words * 8;
+        let e = Entry { value: Datum::Word(0), padding: Padding::Right { target_size: 8 }, name: EntryName::NonConfigurable };
+        let mut buf: Vec<u8> = Vec::new(); let mut i = 0; while i < off { buf.push(0xAAu8); i += 1; }
+        serialize_step(&mut buf, &e);
+        let c1 = unsafe { TB_CALLS };
+        let next = offset_step(off, &e);
+        let c2 = unsafe { TB_CALLS };
+        // (the round-up macro evaluates its argument more than once, so the counts are lower bounds)
+        assert!(c1 >= 1 && c2 > c1, "STRUCT: the offset step and the serialiser each measure the entry by calling Entry::to_bytes");
+        assert!(buf.len() == next, "OB: the serialiser advances by exactly the step absolute_idx_to_offset adds for the entry");
+        let j: usize = kani::any(); kani::assume(j < buf.len());
+        if j < off { assert!(buf[j] == 0xAA, "OB: bytes of earlier entries are untouched"); }
+        else if j < off + n { assert!(buf[j] == 0x55, "OB: the entry's bytes sit at the reported offset"); }
+        else { assert!(buf[j] == 0, "OB: the alignment gap is zero"); }
+        std::mem::forget(buf); std::mem::forget(e);
+    }
+'''
+
+
 def word(name):
     return "Entry { value: Datum::Word(kani::any()), padding: Padding::Right { target_size: 8 }, name: %s }" % name
 
@@ -168,6 +207,24 @@ def build(tier):
         offs += OFFS.replace("@L@", str(L)).replace("@U@", str(L + 2))
         obs.append(vf.Ob("set_offset_len%d" % L, "C13", complete=False, bound="bytecode of exactly %d bytes, symbolic content" % L, panic_prop="C17",
                          what="set_bytecode_configurables_offset writes bytes [16,24) and leaves every other byte unchanged"))
+    # ---- inductive step: fold closure of absolute_idx_to_offset vs loop body of serialize_to_bytes, Entry::to_bytes under a contract stub
+    import re
+    fo, fs = fr["absolute_idx_to_offset"], fr["serialize_to_bytes"]
+    step = ""
+    cl = fo["closures"]
+    lp = [l for l in fs["loops"] if l["kind"] == "for"]
+    if len(cl) == 1 and len(cl[0]["params"]) == 2 and cl[0]["body_is_block"] and len(lp) == 1 and ".fold(" in fo["text"]:
+        c, l = cl[0], lp[0]
+        hdr = fs["text"][l["start"]:l["body_open"]]
+        m = re.match(r"for\s+(\w+)\s+in\s+self\s*\.\s*iter_all_entries\s*\(\s*\)\s*$", hdr)
+        if m and re.search(r"let\s+mut\s+buf\b", fs["text"][:l["start"]]):
+            step = (STEP.replace("@CPARAMS@", "%s: usize, %s: &Entry" % tuple(c["params"])).replace("@CBODY@", fo["text"][c["body_start"]:c["body_end"]])
+                    .replace("@LVAR@", m.group(1)).replace("@LBODY@", fs["text"][l["body_open"]:l["body_close"] + 1]))
+    if not step:
+        raise vf.Undecided("absolute_idx_to_offset is no longer take(idx).fold(0, |offset, entry| ..) or serialize_to_bytes no longer one `for entry in self.iter_all_entries()` loop over `buf`: the layout-step contract does not apply")
+    obs.append(vf.Ob("layout_step", "C13", complete=False, panic_prop="C17",
+                     bound="buffer of 0, 8 or 16 bytes before the entry; entry serialisation of 0..9 bytes (Entry::to_bytes under a contract stub: some fixed byte string per entry)",
+                     what="loop body of serialize_to_bytes vs fold closure of absolute_idx_to_offset: the buffer grows from offset(i) to offset(i+1), entry bytes at offset(i), zero gap, prefix untouched (inductive step of 'bytes sit at the reported offsets')"))
     NC, CF = "EntryName::NonConfigurable", 'EntryName::Configurable(String::new())'
     # DEMOTED (DESIGN 5): the collection-level layout obligations (serialize_to_bytes vs absolute_idx_to_offset on 3-entry
     # sections) did not finish in 900 s / 5.5 GB each -- iterator chains over heap Vecs; they are not generated any more.
@@ -195,11 +252,13 @@ def build(tier):
         pool += POOL.replace("@NAME@", name).replace("@PRESENT@", present).replace("@NEW@", new).replace("@SAME@", same)
         obs.append(vf.Ob("pool_%s" % name, "C01", complete=False, bound="one concrete pair of shapes (%s), symbolic element values" % name, panic_prop="C17",
                          what="Entry::equiv (the pooling test of DataSection::insert_data_value) holds exactly when values AND paddings agree at every level"))
-    src = src.replace("@OFFS@", offs).replace("@LAYOUT@", lay).replace("@POOL@", pool)
+    src = src.replace("@OFFS@", offs).replace("@STEP@", step).replace("@LAYOUT@", lay).replace("@POOL@", pool)
     u = vf.KaniUnit("c13_layout", {"src/lib.rs": src}, obs, timeout_s=2400 if tier == "quick" else 4000, jobs=6, auto_files=[DS, "sway-core/src/lib.rs"])
     u.fragments = [vf.frag_record(fr[k]) for k in fr]
-    u.rewrites = [{"rule": "R1", "before": "serde derives on Entry/Datum/EntryName/Padding", "after": "plain derives", "times": 5}]
-    u.assumptions = ["CompiledBytecode reduced to its bytecode field; DataSection::pointer_id replaced by a unit type (not read by the functions under contract)",
+    u.rewrites = [{"rule": "R1", "before": "serde derives on Entry/Datum/EntryName/Padding", "after": "plain derives", "times": 5},
+                  {"rule": "R5", "before": "fold closure of absolute_idx_to_offset / for-loop body of serialize_to_bytes", "after": "fn offset_step / fn serialize_step with the same parameter names (entry by reference instead of by value: no drop glue)", "times": 2}]
+    u.assumptions = ["layout_step: Entry::to_bytes replaced by its contract (a fixed byte string per entry); the induction over entries (iter_all_entries().take(idx).fold / the for loop) is argued in DESIGN, not executed (iterator chains do not finish in CBMC)",
+                     "CompiledBytecode reduced to its bytecode field; DataSection::pointer_id replaced by a unit type (not read by the functions under contract)",
                      "unverified: to_bytecode_mut's instruction sizing, AllocatedOp::to_fuel_asm address arithmetic, the Sway/VM side reading the configurable, fuel_abi.rs copying the offsets",
                      "that finalized_asm.rs reports offset_to_data_section + absolute_idx_to_offset(j + #non-configurables) is read, not contracted"]
     u.heavy = True
